@@ -86,7 +86,7 @@ CHECKS["C09"] = {
     "level": "exploration",
     "engine": "E3 swarm",
     "rule": ("random download histories (40-80 steps, a quiescent cut and the conservation equations after every step): 1-6 scripted peers connect, advertise (bitfield/have/have-all/none/dont-have, changing), choke/unchoke, allowed-fast, answer requests with true/corrupt/short/empty/over-long/misplaced/duplicate blocks or rejects, stay silent past the 30 s expiry, disconnect; consumers request/withdraw pieces; evictions; geometries incl. short final block and >=72 pieces. "
-             "Distinct = class vector of (answer kinds, choke, disconnect, advert changes, evictions, request/cancel counts); non-trivial = at least one block answered, one dropped (choke/disconnect/reject) and one request seen."),
+             "Distinct = class vector of (answer kinds, choke, disconnect, advert changes, evictions, request/cancel counts); non-trivial = at least one block answered, one dropped (choke/disconnect/reject) and one request seen. The download histories also contain: mailbox back-pressure (torrent loop held while remotes toggle have / dont-have until the mailbox and the peers' overflow lists are full, then released), data pushed for every block of a piece (requested or queued or neither), the same against a remote that is not reading. Part 'large': torrents of 4-9 GiB (piece lengths 48K, 80K, 768K, 3M, 64K, 4M; real hashes only for the demanded pieces, content from the PRF on demand): pieces below / across / above byte 2^32, the last piece and pieces 0-2 are demanded from an honest seed under the same monitors, read back, read through a Reader across 2^32, and uploaded to a leech."),
     "assumptions": E3_ASSUME,
     "min": {"distinct_nontrivial": {"quick": 50, "thorough": 50}, "counters": {"conservation_cuts": 10000, "allzero_checks": 300, "requests_received": 2000, "backpressure": 300, "large_pieces_completed:above-4GiB": 10}},
     "parts": [{"name": "download", "pkg": "c09_conserve", "netns": "isolated", "race": False, "shards": 16, "env": {"VERIF_PROP": "C09"}},
@@ -99,7 +99,7 @@ CHECKS["C09"] = {
 CHECKS["C11"] = {
     "level": "exploration",
     "engine": "E3 swarm",
-    "rule": CHECKS["C09"]["rule"].replace("the conservation equations", "the conformance monitor inside each scripted remote judging every message storrent sent"),
+    "rule": CHECKS["C09"]["rule"].replace("the conservation equations", "the conformance monitor inside each scripted remote judging every message storrent sent Histories also contain scheduler commands injected into peer actors, mailbox back-pressure and pushed data (see C09). Part 'large': torrents of 4-9 GiB (piece lengths 48K, 80K, 768K, 3M, 64K, 4M; real hashes only for the demanded pieces, content from the PRF on demand): pieces below / across / above byte 2^32, the last piece and pieces 0-2 are demanded from an honest seed under the same monitors, read back, read through a Reader across 2^32, and uploaded to a leech."),
     "assumptions": E3_ASSUME + ["messages that reach a remote between its own state-changing message and the next quiescent cut are judged against either the old or the new state (exact exemption window)"],
     "min": {"distinct_nontrivial": {"quick": 50, "thorough": 50}, "counters": {"requests_received": 2000, "recv:bitfield": 100, "recv:cancel": 100, "recv:pex": 100, "large_pieces_completed:above-4GiB": 10, "large_pieces_completed:spans-4GiB": 5}},
     "parts": [{"name": "download", "pkg": "c09_conserve", "netns": "isolated", "race": False, "shards": 16, "env": {"VERIF_PROP": "C11"}},
@@ -115,7 +115,7 @@ CHECKS["C16"] = {
     "level": "exploration",
     "engine": "E3 swarm",
     "rule": ("random upload histories (30-80 steps, quiescent cut after every step): store pre-filled from truth, 1-16 scripted leechers flap interest, send valid / zero-length / spanning / unaligned / out-of-range / duplicate requests, floods of 260-1000 requests, cancels of present and absent requests, stop reading (write congestion), disconnect in any choke state; choke rotation over virtual minutes; eviction and refill of requested pieces; torrent deleted while peers are unchoked. "
-             "Distinct = class vector of the action and message counts; non-trivial = at least one request sent and one Piece received."),
+             "Distinct = class vector of the action and message counts; non-trivial = at least one request sent and one Piece received. Also: a missing piece is filled with corrupt data and verified slowly (hook at piece.finalise.hash.begin sleeps virtual time) while unchoked leeches request its blocks. Part 'large': torrents of 4-9 GiB (piece lengths 48K, 80K, 768K, 3M, 64K, 4M; real hashes only for the demanded pieces, content from the PRF on demand): pieces below / across / above byte 2^32, the last piece and pieces 0-2 are demanded from an honest seed under the same monitors, read back, read through a Reader across 2^32, and uploaded to a leech."),
     "assumptions": E3_ASSUME + ["the 'at most five unchoked per torrent' rotation is a mechanism, not part of the statement: it is reported, not asserted"],
     "min": {"distinct_nontrivial": {"quick": 50, "thorough": 50}, "counters": {"pieces_answering_our_requests": 2000, "unchoke_accounting_cuts_nonzero": 1000, "rejects_for_our_requests": 100}},
     "parts": [{"name": "upload", "pkg": "c16_upload", "netns": "isolated", "race": False, "shards": 16},
@@ -212,7 +212,7 @@ CHECKS["C02"] = {
     "rule": ("readers: random seek/read programs (15-55 steps; whence variants, seeks before 0 / to / past EOF, buffer sizes 1 B..200 KB, zero-length reads, read-to-EOF) on 1-4 real tor.Readers over windows of torrents <= 1 MiB (whole torrent, a file, ending at a piece end, ending inside a piece, one byte, starting in the first piece, the tail), single- and multi-file, while one honest auto-seed and 0-2 slow / corrupting / silent seeds deliver, seeds leave and are replaced, pieces are evicted between reads (per-torrent eviction with Have(false) as tor.Expire does it, and tor.Expire itself under a small MemoryMark); one history in four starts with every piece already complete (the 'complete at request time, then evicted' family); each history ends with blocked reads being cancelled or the torrent killed. "
              "frontends: HTTP GETs through the mux with Range headers (none, a-b, a-, -n, end beyond EOF, unsatisfiable, two ranges, first/last byte) and 1-4 concurrent FUSE handle reads (offsets up to and beyond EOF) on a file of a torrent that is being downloaded and evicted. "
              "Every byte returned is compared with PRF truth at offset+position, lengths/EOF/Seek results with a seekable-file reference model, HTTP status/Content-Range/multipart parts with the range semantics. "
-             "Distinct = class vector of the action counts; non-trivial = at least three reads and one eviction (readers) / at least one HTTP request and one FUSE read (frontends)."),
+             "Distinct = class vector of the action counts; non-trivial = at least three reads and one eviction (readers) / at least one HTTP request and one FUSE read (frontends). In half of the histories hashing takes virtual time (hook), and after evictions readers come back exactly while a piece is being verified; one seed corrupts whole blocks. Part 'large': torrents of 4-9 GiB (piece lengths 48K, 80K, 768K, 3M, 64K, 4M; real hashes only for the demanded pieces, content from the PRF on demand): pieces below / across / above byte 2^32, the last piece and pieces 0-2 are demanded from an honest seed under the same monitors, read back, read through a Reader across 2^32, and uploaded to a leech."),
     "assumptions": E3_ASSUME + ["'eventually returns the data' is decided as bounded progress: a Read (retried every 100 virtual ms on (0,nil)), an HTTP request or a FUSE read must complete within 10 virtual minutes while an honest unchoking auto-seed is connected; 'fails promptly' = within 1 virtual minute of cancel / Kill",
                                 "short reads and transient (0,nil) are allowed; anything else is compared exactly"],
     "min": {"distinct_nontrivial": {"quick": 60, "thorough": 60}, "counters": {"reads": 5000, "bytes_compared": 50000000, "evictions": 1000, "eofs": 300, "reads_resumed_after_zero_returns": 20, "http_206": 100, "fuse_reads": 500, "blocked_reads_failed_promptly:cancel": 50, "blocked_reads_failed_promptly:kill": 50}},
